@@ -1003,7 +1003,11 @@ def ctx_rules(ctx: Ctx) -> None:
             kws = {k.arg: norm(k.value) for k in call.keywords} if isinstance(call, ast.Call) else {}
             ex = mod.fn("extract")
             defaults = {a.arg: norm(d) for a, d in zip(ex.args.kwonlyargs, ex.args.kw_defaults)}
-            ok4 = norm(call.func) == "current_options.push" and kws == defaults and len(w[0].body) == 1 and norm(w[0].body[0]) == f"fill_context({cvar})"
+            pushf = mod.fn("ExtractOptions.push")
+            push_defaults = {a.arg: norm(d) for a, d in zip(pushf.args.kwonlyargs, pushf.args.kw_defaults) if d is not None}
+            same = all(kws.get(k_, push_defaults.get(k_)) == v_ for k_, v_ in defaults.items() if k_ in ("with_contexts", "recurse_child_tasks") or k_ in kws or k_ in push_defaults) \
+                and {"with_contexts", "recurse_child_tasks"} <= set(kws)
+            ok4 = norm(call.func) == "current_options.push" and same and len(w[0].body) == 1 and norm(w[0].body[0]) == f"fill_context({cvar})"
     if ok4:
         ctx.R.ok("CTX-4", "outside an extraction fill_context re-enters itself under push(<defaults of extract>) and returns")
     else:
@@ -1308,17 +1312,31 @@ def opt4(ctx: Ctx) -> None:
         body = [s for s in fn.body if not (isinstance(s, ast.Expr) and isinstance(s.value, ast.Constant))]
         # statements before the `with` that neither read the options nor extract anything are not "work" in the sense of this rule
         sensitive = ("current_options", "extract_iter", "extract_child", "fill_context", "unwrap_stackitem", "elaborate_frame", "contexts_active_in_frame")
-        while len(body) > 1 and not isinstance(body[0], ast.With) and isinstance(body[0], (ast.Expr, ast.Assign, ast.AnnAssign)) \
+        def _validation(st: ast.AST) -> bool:
+            return isinstance(st, ast.If) and not st.orelse and all(isinstance(x, ast.Raise) for x in st.body)
+        while len(body) > 1 and not isinstance(body[0], ast.With) and (isinstance(body[0], (ast.Expr, ast.Assign, ast.AnnAssign)) or _validation(body[0])) \
                 and not any(w in norm(body[0]) for w in sensitive):
             ctx.R.note(f"OPT-4: {q}: `{norm(body[0])[:60]}` before the push does not involve the options")
             body = body[1:]
         if len(body) == 1 and isinstance(body[0], ast.With) and isinstance(body[0].items[0].context_expr, ast.Call) \
                 and norm(body[0].items[0].context_expr.func) == "current_options.push":
             kws = {k.arg: norm(k.value) for k in body[0].items[0].context_expr.keywords}
+            extra_kw = {k_: v_ for k_, v_ in kws.items() if k_ not in ("with_contexts", "recurse_child_tasks")}
+            if extra_kw:
+                ctx.R.note(f"OPT-4: {q} passes further options to push: {sorted(extra_kw)}")
+            kws = {k_: v_ for k_, v_ in kws.items() if k_ in ("with_contexts", "recurse_child_tasks")}
             if kws == {"with_contexts": "with_contexts", "recurse_child_tasks": "recurse_child_tasks"}:
                 ctx.R.ok("OPT-4", f"{q}: all work inside `with current_options.push(<own two parameters under their own names>)`")
             else:
                 ctx.R.fail("OPT-4", mod, body[0], f"{q} must pass its own two parameters under their own names to push; found {kws}", construct=f"{q}: push({kws})")
+        elif q != "extract" and not any(isinstance(x, ast.With) for x in ast.walk(fn)) and not any(w in norm(fn) for w in ("extract_iter", "current_options")):
+            # delegation: everything goes through extract(...), which pushes
+            dc = [c for c in calls_in(fn, True) if ctx.P.resolve_call(mod, c).is_pkg("_extract", "extract")]
+            kw_ok = dc and all({k.arg: norm(k.value) for k in c.keywords}.get("with_contexts") == "with_contexts" and {k.arg: norm(k.value) for k in c.keywords}.get("recurse_child_tasks") == "recurse_child_tasks" for c in dc)
+            if kw_ok:
+                ctx.R.ok("OPT-4", f"{q}: delegates to extract(...) with its own two options under their own names")
+            else:
+                ctx.R.fail("OPT-4", mod, fn, f"{q} must pass its own two options to extract / push under their own names", construct=f"{q}: with push")
         else:
             ctx.R.fail("OPT-4", mod, fn, f"{q} must do all its work inside `with current_options.push(...)`", construct=f"{q}: with push")
     for q in ("extract_since", "extract_until"):
